@@ -81,3 +81,18 @@ rule('C20.15')(c13.memo_key)
 # matching keeps no process-wide state (compiled patterns, memoised specs)
 rule('C09.10')(c06.closed_inventory)
 rule('C13.10')(c01.identity_flow)             # the accessor of a path segment always comes from the registry
+
+
+# round-3 seeds: clauses shared between properties
+rule('C01.12')(c13.memo_key)                   # the accessor memo must be keyed by the type itself
+rule('C03.15')(c06.per_evaluation_state)       # Call / Invoke / Coalesce defaults: a fresh argument valuator per evaluation
+rule('C09.11')(c06.per_evaluation_state)       # Optional / Match defaults
+rule('C10.7')(c06.per_evaluation_state)        # And / Or / Switch / Check defaults
+rule('C11.10')(c06.per_evaluation_state)       # the assigned value
+rule('C12.7')(c01.layout_agreement)            # the wildcard count the broadcast trusts reads ops at the writer's stride
+rule('C20.16')(c13.memo_invalidation)          # a registration made by one call is seen by every later / concurrent one
+rule('C04.13')(c11.missing_tail)                # an access error of the value spec keeps its class (is not taken for a missing destination)
+rule('C18.10')(c05.repr_limits)                 # repr round trip: a string / nesting limit left at its default changes the literal
+rule('C08.9')(c16.fold_claims_in_group_mode)      # group mode ends where another mode begins
+rule('C09.12')(c02.literal_passthrough)         # Optional / Match defaults: containers are rebuilt per evaluation
+rule('C14.10')(c01.conversion_and_index)       # a failing entry after a wildcard is dropped only if its failure became a PathAccessError
